@@ -845,6 +845,9 @@ func (e *Evaluator) evalExprList(exprs []Expr, copy bool) ([]*Cell, error) {
 }
 
 func (e *Evaluator) evalStatement(stmt Statement) error {
+	if err := e.verifStep(); err != nil {
+		return err
+	}
 	switch st := stmt.(type) {
 	case *StatementBlock:
 		for _, s := range st.Body {
